@@ -107,14 +107,58 @@ func SexpToJson(exp Sexp) string {
 	case *SexpArray:
 		return e.jsonArrayHelper()
 	case *SexpSymbol:
-		return `"` + e.name + `"`
+		return jsonQuote(e.name)
+	case *SexpStr:
+		return jsonQuote(e.S)
 	default:
 		return exp.SexpString(nil)
 	}
 }
 
+// jsonQuote returns s as a JSON string literal (RFC 8259 section 7):
+// only the quote, the backslash and the control characters below
+// 0x20 are escaped; all other bytes are copied, so UTF-8 text stays
+// UTF-8. strconv.Quote is not usable here, because it emits Go
+// escapes (\a, \v, \x7f, \U0001f600) that JSON does not have.
+func jsonQuote(s string) string {
+	const hex = "0123456789abcdef"
+	b := make([]byte, 0, len(s)+2)
+	b = append(b, '"')
+	for i := 0; i < len(s); i++ {
+		c := s[i]
+		switch {
+		case c == '"' || c == '\\':
+			b = append(b, '\\', c)
+		case c == '\n':
+			b = append(b, '\\', 'n')
+		case c == '\r':
+			b = append(b, '\\', 'r')
+		case c == '\t':
+			b = append(b, '\\', 't')
+		case c < 0x20:
+			b = append(b, '\\', 'u', '0', '0', hex[c>>4], hex[c&0xf])
+		default:
+			b = append(b, c)
+		}
+	}
+	b = append(b, '"')
+	return string(b)
+}
+
+// jsonKey returns the JSON member name for a hash key: the text of a
+// string or symbol key, else the printed form of the key.
+func jsonKey(key Sexp) string {
+	switch k := key.(type) {
+	case *SexpStr:
+		return jsonQuote(k.S)
+	case *SexpSymbol:
+		return jsonQuote(k.name)
+	}
+	return jsonQuote(key.SexpString(nil))
+}
+
 func (hash *SexpHash) jsonHashHelper() string {
-	str := fmt.Sprintf(`{"Atype":"%s", `, hash.TypeName)
+	str := `{"Atype":` + jsonQuote(hash.TypeName) + `, `
 
 	ko := []string{}
 	n := len(hash.KeyOrder)
@@ -123,11 +167,11 @@ func (hash *SexpHash) jsonHashHelper() string {
 	}
 
 	for _, key := range hash.KeyOrder {
-		keyst := key.SexpString(nil)
+		keyst := jsonKey(key)
 		ko = append(ko, keyst)
 		val, err := hash.HashGet(nil, key)
 		if err == nil {
-			str += `"` + keyst + `":`
+			str += keyst + `:`
 			str += string(SexpToJson(val)) + `, `
 		} else {
 			panic(err)
@@ -136,7 +180,7 @@ func (hash *SexpHash) jsonHashHelper() string {
 
 	str += `"zKeyOrder":[`
 	for _, key := range ko {
-		str += `"` + key + `", `
+		str += key + `, `
 	}
 	if n > 0 {
 		str = str[:len(str)-2]
